@@ -238,4 +238,11 @@ def c17_f(ctx: Ctx):
     return per_item_loops(ctx, "C17-f", [('signac.linked_view:create_linked_view', 'a job is linked under the path computed for the previous one'), ('signac.linked_view:_update_view', 'a link is created from the data of the previous one'), ('signac.linked_view:_analyze_view', 'a link is classified by the data of the previous one')])
 
 
-RULES = [c17_a, c17_b, c17_c, c17_d, c17_e, c17_f]
+@rule("C17-g")
+def c17_g(ctx: Ctx):
+    """Whole-module cross-checks: no exchanged positional arguments in resolved internal calls; diagnostics (logging / warnings) do no work."""
+    from .lints import swapped_arguments, pure_logging
+    return swapped_arguments(ctx, "C17-g", ['signac.linked_view', 'signac.import_export']) + pure_logging(ctx, "C17-g", ['signac.linked_view'])
+
+
+RULES = [c17_a, c17_b, c17_c, c17_d, c17_e, c17_f, c17_g]
